@@ -132,3 +132,28 @@ def segmentations(data, k=1, full_below=12):
     for seg in cuts(data, k):
         yield seg
     yield tuple(data[i : i + 1] for i in range(n))
+
+
+def shard_prefixes(run, depth, bound=None):
+    """Partition the execution tree below the root into disjoint sub-trees given
+    by choice prefixes of length <= depth.  Returns [(prefix, deviations)]; feed each
+    to ``explore(run, bound, prefix, deviations)``.  Executions shorter than
+    ``depth`` become their own (complete) prefix."""
+    out = []
+    stack = [([], 0)]
+    while stack:
+        pre, dev = stack.pop()
+        ch = Chooser(pre)
+        run(ch)
+        tr = ch.trace
+        cut = min(depth, len(tr))
+        out.append(([t[1] for t in tr[:cut]], dev))
+        for i in range(cut - 1, len(pre) - 1, -1):
+            n, c, free = tr[i]
+            d = dev if free else dev + 1
+            if bound is not None and d > bound:
+                continue
+            base = [t[1] for t in tr[:i]]
+            for alt in range(n - 1, 0, -1):
+                stack.append((base + [alt], d))
+    return out
